@@ -85,7 +85,14 @@ func readAllInterleaved(r kvdb.IteratedReader, p, s []byte) ([][2]string, error)
 	i := 0
 	for it.Next() {
 		out = append(out, [2]string{string(it.Key()), string(it.Value())})
+		// keys that differ from the iteration prefix in the first byte as well as keys that share it
 		k := probeKeys[i%len(probeKeys)]
+		if i%2 == 0 {
+			k = "a"
+			if len(p) > 0 && p[0] == 'a' {
+				k = "\xff"
+			}
+		}
 		i++
 		_, _ = r.Get([]byte(k))
 		_, _ = r.Has([]byte(k + "z"))
@@ -309,7 +316,10 @@ func main() {
 		b := b
 		stacks = append(stacks,
 			&stack{name: b.name, base: b.s, top: func(x kvdb.Store) (kvdb.Store, func() error) { return x, nil }},
-			&stack{name: "table(" + b.name + ")", base: b.s, top: func(x kvdb.Store) (kvdb.Store, func() error) { return table.New(x, []byte("t")), nil }},
+			&stack{name: "table(" + b.name + ")", base: b.s, top: func(x kvdb.Store) (kvdb.Store, func() error) {
+				// a prefix slice with spare capacity (append-built, as callers do): the table must not write into it
+				return table.New(x, append(make([]byte, 0, 16), 't')), nil
+			}},
 			&stack{name: "table\\xff(" + b.name + ")", base: b.s, top: func(x kvdb.Store) (kvdb.Store, func() error) { return table.New(x, []byte{0x01, 0xff}), nil }},
 			&stack{name: "flushable(" + b.name + ")", base: b.s, top: func(x kvdb.Store) (kvdb.Store, func() error) {
 				f := flushable.Wrap(x)
